@@ -121,7 +121,8 @@ def _let_init(f, name):
 
 
 def _pred_calls(e):
-    return sorted({(callee(c) or "").split("::")[-1] for c, _ in walk(e) if is_call(c)
+    from ..db import walk_x
+    return sorted({(callee(c) or "").split("::")[-1] for c, _ in walk_x(e) if is_call(c)
                    and (callee(c) or "").split("::")[-1] in ("is_nfkc_quick", "is_uppercase", "is_lowercase", "is_nfkc", "is_nfc_quick",
                                                             "is_nfkd_quick", "is_alphabetic", "should_ignore", "to_lowercase", "to_uppercase")})
 
@@ -140,16 +141,14 @@ def path_choice(db, ctx):
         raise AnchorMissing("rewrite_impl: replace_fast / replace_slow calls")
     pcs = path_conditions(fast[0][0]["id"], f.hir) or []
     neg = set()
+    whole = {}
     for c, pol in pcs:
         if isinstance(c, dict):
-            for a, p in atoms(c, pol):
-                nm = local_name(a)
-                if nm and p is False:
-                    neg.add(nm)
-    whole = {}
-    for nm in sorted(neg):
-        init = _let_init(f, nm)
-        whole[nm] = _pred_calls(init) if init else []
+            for a, p in atoms(c, pol):      # named booleans are looked through
+                if p is False:
+                    r = render(a)[:60]
+                    neg.add(r)
+                    whole[r] = _pred_calls(a)
     preds = sorted({p for v in whole.values() for p in v})
     ctx.ob("rewrite_impl|fast-only-if-nothing-to-normalise", {"is_nfkc_quick", "is_uppercase"} <= set(preds),
            "replace_fast is guarded by the negation of %s computed with %s (must include a whole-text NFKC quick-check and an upper-case "
